@@ -18,7 +18,7 @@ from ..astutil import dotted, norm, walk_local
 from ..core import Ctx, PropSpec, Unsupported
 from ..extract import where
 from ..harness import Harness, cursor
-from ..interp import BytesObj, ClassRef, FloatObj, IntObj, Raised, StrObj
+from ..interp import pub, BytesObj, ClassRef, FloatObj, IntObj, Raised, StrObj
 
 CM = "common.py"
 BASES = {"BinaryParameter": "bytes", "BoolParameter": "int", "FloatParameter": "float", "IntParameter": "int",
@@ -294,7 +294,7 @@ def emulate_packet_copy(ctx: Ctx, defined):
             k, c = h.outcome("p.__deepcopy__({})", "packets.py", p=p)
             if k != "ok":
                 return (False, f"CCSDSPacket.__deepcopy__ raises {c}")
-            r0, r1 = p.attrs.get("raw_data"), getattr(c, "attrs", {}).get("raw_data")
+            r0, r1 = pub(p, "raw_data"), pub(c, "raw_data")
             if r1 is None or r1 is r0:
                 return (False, "copy.deepcopy of a parsed packet shares the RawPacketData object with the original: advancing the "
                                "cursor of one moves the other")
@@ -302,7 +302,7 @@ def emulate_packet_copy(ctx: Ctx, defined):
                 return (False, f"copy.deepcopy of a parsed packet differs: cursor {r1.attrs.get('pos')} items {dict(c)}")
         if "__copy__" in defined:
             k, c = h.outcome("p.__copy__()", "packets.py", p=p)
-            if k != "ok" or dict(c) != dict(p) or getattr(c, "attrs", {}).get("raw_data") is None:
+            if k != "ok" or dict(c) != dict(p) or pub(c, "raw_data") is None:
                 return (False, "copy.copy of a parsed packet loses items or raw data")
         return (True, "custom copy hooks keep items, raw bytes and an independent cursor (emulated)")
     except Unsupported:
@@ -495,8 +495,41 @@ def packet_state(ctx: Ctx):
                    f"a parsed packet cannot be pickled: {bad}", where=where(fi, fi.node))
 
 
+def big_field(ctx: Ctx):
+    """A binary field longer than 64 KiB (a packet reassembled from segments): value and raw value are plain bytes objects, and
+    the packet can be pickled."""
+    from . import xmlcommon as X
+    prog = ctx.prog
+    fi = prog.func(f"{X.DEF}::XtcePacketDefinition.parse_ccsds_packet")
+    site = f"{fi.key}::binary field of 66000 bytes"
+    try:
+        h = X.harness(prog)
+        src = X.minimal_header_src().replace("])])", "]), ])") if False else None
+        params = ", ".join(f'parameters.Parameter("{n}", parameter_types.IntegerParameterType("{n}_T", {X._int(w)}))' for n, w in X.HEADER)
+        d = h.ev(f'XtcePacketDefinition([containers.SequenceContainer("CCSDSPacket", [{params}, parameters.Parameter("BIG", '
+                 f'parameter_types.BinaryParameterType("BIG_T", {X.E}.BinaryDataEncoding(fixed_size_in_bits={8 * 66000})))])])', X.DEF)
+        big = bytes([0x08, 0x21, 0xC0, 0x00, 0xFF, 0xFF]) + bytes((i * 7 + 1) % 256 for i in range(66000))
+        k, got = h.outcome("d.parse_ccsds_packet(packets.CCSDSPacket(raw_data=packets.RawPacketData(big)))", X.DEF, d=d, big=big)
+        bad = None
+        if k != "ok" or not isinstance(got, dict) or "BIG" not in got:
+            bad = f"parsing ends in {got!r}"
+        else:
+            v = got["BIG"]
+            rv = getattr(v, "attrs", {}).get("raw_value")
+            if not isinstance(v, bytes) or bytes(v) != big[6:]:
+                bad = f"the value is a {type(v).__name__}, not the 66000 bytes of the field"
+            elif type(rv).__mro__[-2] is not bytes or bytes(rv) != big[6:]:
+                bad = f"the raw value is a {type(rv).__name__}, not a bytes object equal to the value"
+            else:
+                bad = unpicklable(prog, got, "packet")
+        ctx.decide(bad is None, "R20.5", site, "bytes value, bytes raw value, picklable", f"a 66000-byte binary field: {bad}", where=where(fi, fi.node))
+    except (Unsupported, Raised) as e:
+        ctx.unknown("R20.5", site, str(e))
+
+
 def check(ctx: Ctx) -> None:
     ctx.guard("R20.5", "xtce/definitions.py", packet_state, ctx)
+    ctx.guard("R20.5", "xtce/definitions.py", big_field, ctx)
     ctx.guard("R20.1", CM, base_table, ctx)
     ctx.guard("R20.2", CM, constructor, ctx)
     ctx.guard("R20.3", CM, hooks, ctx)
@@ -538,7 +571,7 @@ SPEC = PropSpec(
     pid="C20",
     title="Parsed values are drop-in built-ins with a raw value and survive copying",
     check=check,
-    floors={"R20.5": 2, "R20.1": 5, "R20.2": 6, "R20.3": 9, "R20.4": 6, "R20.e": 20},
+    floors={"R20.5": 3, "R20.1": 5, "R20.2": 6, "R20.3": 9, "R20.4": 6, "R20.e": 20},
     explanation=("Class-shape rules over the value classes, CCSDSPacket and RawPacketData: base table (mixin first, one "
                  "matching built-in), decision table of the constructor hook by abstract interpretation for every "
                  "class x falsy/ordinary value x raw omitted/falsy/ordinary (raw chosen by `is None`, value forwarded), "
@@ -549,7 +582,8 @@ SPEC = PropSpec(
                  "arithmetic or formatting. Hashing/ordering/arithmetic/formatting themselves are CPython's for "
                  "built-in subclasses and are not re-decided; actual copy/pickle results are not executed."
                  ' R20.e: in both end-to-end documents of C01 every parsed value carries the encoded value as raw_value (a plain built-in, not a view of the packet buffer).'
-                 ' __slots__ without __getstate__ on a state class, and dynamically created classes (namedtuple(...)) kept in object state under a name that differs from their type name, make packets unpicklable.'),
+                 ' __slots__ without __getstate__ on a state class, and dynamically created classes (namedtuple(...)) kept in object state under a name that differs from their type name, make packets unpicklable.'
+                 ' R20.5: everything reachable from the state of each packet the generator yields for the all-features and the hand-written document (items, raw bytes, cursor, any other attribute) is something pickle can serialise (no function defined inside a function, no XML node).'),
     rule_doc="one obligation per class per rule",
     assumptions=["CPython: subclasses of built-ins without overriding dunders behave like the built-in",
                  "copyreg protocol 2: cls.__new__(cls, *getnewargs), then __dict__ update"],
